@@ -15,6 +15,7 @@ pub fn draw_exec_config(step_budget: u64) -> ExecConfig {
         time_pass_den,
         step_budget,
         time_pass_never: &[],
+        strict_wakers: simkit::chance("exec.strict_wakers", 1, 3),
         pct_depth: 1 + ch("exec.pct_depth", 3),
         pct_horizon: 8 << ch("exec.pct_horizon", 4),
     }
@@ -25,6 +26,7 @@ pub fn exec_config_json(c: &ExecConfig) -> serde_json::Value {
         "policy": c.policy.name(),
         "spurious_poll_probability": if c.spurious_den == 0 { "0".to_string() } else { format!("1/{}", c.spurious_den) },
         "let_time_pass_probability": if c.time_pass_den == 0 { "0".to_string() } else { format!("1/{}", c.time_pass_den) },
+        "strict_wakers": c.strict_wakers,
     })
 }
 
